@@ -70,3 +70,31 @@ Theorem C14_plain_hypotheses_hold :
   plain_line ($". x") /\ plain_line ($") x") /\ ~ plain_line ($"1. x") /\ ~ plain_line ($"a *b*").
 Proof. split; [exact configs_quiet|exact a_plain_line]. Qed.
 Print Assumptions C14_plain_hypotheses_hold.
+
+(* ... and for paragraphs of SEVERAL lines (Proofs/ProseLines.v): a first plain line, then any number of continuation lines
+   - plain lines whose first character can, besides, be neither a setext underline nor a list-item marker - parse to ONE
+   paragraph holding the lines as raw text separated by soft line breaks, and render as <p> + the lines, escaped, joined
+   by newlines + </p>.  The paragraph reader goes on over every line (no block interrupts it); the LineBreak pattern
+   finds exactly the newlines (evaluated in the regex engine); every other span finder and the delimiter scanner find
+   nothing; the candidates tile the text. *)
+From Mistletoe Require Import Proofs.ProseLines.
+Theorem C14_prose_paragraph_passes_through : forall cfg o l ls,
+  plain_line l -> Forall cont_line ls -> prose_config cfg = true ->
+  render_html o (fst (fst (parse_lines cfg (nl_lines (l :: ls))))) =
+  $"<p>" ++ join [10] (map (escape_html_text o) (l :: ls)) ++ $"</p>" ++ [10].
+Proof. exact prose_paragraph_renders. Qed.
+Print Assumptions C14_prose_paragraph_passes_through.
+
+Theorem C14_prose_paragraph_parses : forall cfg l ls,
+  plain_line l -> Forall cont_line ls -> prose_config cfg = true ->
+  fst (fst (parse_lines cfg (nl_lines (l :: ls)))) = Document [Paragraph (prose_toks (l :: ls))].
+Proof. exact prose_paragraph_parses. Qed.
+Print Assumptions C14_prose_paragraph_parses.
+
+Theorem C14_prose_hypotheses_hold :
+  forallb prose_config [cfg_html; cfg_html_nohtml; cfg_markdown; cfg_latex; cfg_mathjax; cfg_default] = true /\
+  (plain_line ($"Of course 2 + 2 = 4 (nearly),") /\ cont_line ($"e.g. 50% @home; see #tag") /\ cont_line ($"and so on: a-b a.b) -1 :-") /\
+   ~ cont_line ($"=== underline") /\ ~ cont_line ($"1986. A year") /\
+   escape_html_text (mkHopts false false) ($"a > b ""c""") = $"a &gt; b ""c""").
+Proof. split; [exact prose_configs|exact prose_instance]. Qed.
+Print Assumptions C14_prose_hypotheses_hold.
